@@ -24,6 +24,7 @@ RULE = ('random XML trees whose elements/attributes draw (prefix, URI) from an i
         'partial, foreign URIs, with default, default = other namespace, default = ""); selectors draw every element and '
         'attribute namespace form, at top level and inside :is/:not/:has/of S.  Non-trivial = expected set neither empty nor '
         'everything; distinct = distinct (selector shape, map index, tree shape).')
+RULE += (' Round-4 additions: caller maps with a prefix spelled html (12-13 maps per family); half of the calls pass one long-lived dict object that the caller refills before each query.')
 ASSUMPTIONS = [
     'run on namespace-aware documents only; attribute selectors never use an escaped colon nor the names xmlns/declared prefixes',
     'with a default namespace in the map, a top-level compound that is not the subject and has no type selector is '
